@@ -44,6 +44,15 @@ pub fn load(name: &str, k: u16) -> Result<Big, String> {
         "cell_division" => BooleanNetwork::try_from(MODEL_CELL_DIVISION)?,
         // synthetic wide-but-simple networks (more than 53 state bits, so that set sizes exceed
         // what a double can count exactly): a shift register x00 -> x01 -> ... with a frozen head
+        // 44-variable shift register whose last two variables have unknown update functions over
+        // three regulators each (2^16 colours): 2^60 (state, colour) pairs but only 2^44 states per colour
+        "synthetic:chain44p2" => BooleanNetwork::try_from(chain_p2(44).as_str())?,
+        // 26 independent variables a00..a12, b00..b12 (frozen): sets like OR_i (a_i & b_i) have ~2^13 BDD nodes
+        "synthetic:pairs13" => BooleanNetwork::try_from(pairs(13).as_str())?,
+        // 44 variables (a 4-stage rising chain c0..c3 that only moves when all 14 zero-arity parameters
+        // are true, plus 40 frozen inputs): 2^58 (state, colour) pairs, 2^44 states per colour, and
+        // dynamics that differ from "frozen" in exactly one of the 16 384 colours
+        "synthetic:gated44" => BooleanNetwork::try_from(gated(40, 14).as_str())?,
         "synthetic:chain20" => BooleanNetwork::try_from(chain(20, false).as_str())?,
         "synthetic:chain40" => BooleanNetwork::try_from(chain(40, false).as_str())?,
         "synthetic:chain60" => BooleanNetwork::try_from(chain(60, false).as_str())?,
@@ -85,6 +94,42 @@ fn chain(n: usize, param_tail: bool) -> String {
         } else {
             s.push_str(&format!("{} -> {}\n${}: {}\n", name(i - 1), name(i), name(i), name(i - 1)));
         }
+    }
+    s
+}
+
+fn chain_p2(n: usize) -> String {
+    let name = |i: usize| format!("x{i:02}");
+    let mut s = format!("{} -> {}\n${}: {}\n", name(0), name(0), name(0), name(0));
+    for i in 1..n - 2 {
+        s.push_str(&format!("{} -> {}\n${}: {}\n", name(i - 1), name(i), name(i), name(i - 1)));
+    }
+    for i in n - 2..n {
+        // implicit, unconstrained function of three regulators
+        s.push_str(&format!("{} -?? {}\n{} -?? {}\n{} -?? {}\n", name(i - 1), name(i), name(i - 2), name(i), name(i), name(i)));
+    }
+    s
+}
+
+fn pairs(n: usize) -> String {
+    let mut s = String::new();
+    for i in 0..n {
+        for p in ["a", "b"] {
+            s.push_str(&format!("{p}{i:02} -> {p}{i:02}\n${p}{i:02}: {p}{i:02}\n"));
+        }
+    }
+    s
+}
+
+fn gated(fillers: usize, params: usize) -> String {
+    let gate: Vec<String> = (1..=params).map(|i| format!("g{i:02}")).collect();
+    let gate = gate.join(" & ");
+    let mut s = String::from("c0 -> c0\n$c0: c0\n");
+    for i in 1..4 {
+        s.push_str(&format!("c{} -?? c{}\nc{} -?? c{}\n$c{}: c{} | (c{} & {})\n", i - 1, i, i, i, i, i, i - 1, gate));
+    }
+    for i in 1..=fillers {
+        s.push_str(&format!("f{i:02} -> f{i:02}\n$f{i:02}: f{i:02}\n"));
     }
     s
 }
